@@ -624,6 +624,18 @@ def commitTables (tables committed : Tables) : List String → Tables
 def commit (s : State) : State :=
   { s with marks := [], committed := commitTables s.tables s.committed s.marks }
 
+/-- ROLLBACK: every marked table goes back to its committed state (file re-read / restore point of a temporary
+    table / the session's copy of STDIN); a marked table without committed state keeps its contents -/
+def rollbackTables (tables committed : Tables) : List String → Tables
+  | [] => tables
+  | n :: ns =>
+    match lookupT committed n with
+    | none => rollbackTables tables committed ns
+    | some t => rollbackTables (setTable tables n t) committed ns
+
+def rollback (s : State) : State :=
+  { s with marks := [], tables := rollbackTables s.tables s.committed s.marks }
+
 /-- a history of statements, results dropped -/
 def run (s : State) : List Stmt → State
   | [] => s
